@@ -74,20 +74,27 @@ func vBytes(name string) []byte { return []byte(vText(name)) }
 // vMakeWN builds a string of display width w and byte length n when possible (ASCII = 1 col/1 byte,
 // CJK = 2 cols/3 bytes, combining mark = 0 cols/2 bytes); falls back to width-only.
 func vMakeWN(w, n int) string {
-	out := ""
+	// (a byte length far beyond what the width needs is capped: it would only be padding of zero-width marks)
+	if w > 1<<16 {
+		w = 1 << 16
+	}
+	if n > 3*w+4096 {
+		n = 3*w + 4096
+	}
+	var sb strings.Builder
 	for cw := w; cw > 0; {
-		if cw >= 2 && n-len(out) >= 3 && n-len(out) > cw {
-			out += "\u4e16"
+		if cw >= 2 && n-sb.Len() >= 3 && n-sb.Len() > cw {
+			sb.WriteString("\u4e16")
 			cw -= 2
 		} else {
-			out += "x"
+			sb.WriteString("x")
 			cw--
 		}
 	}
-	for len(out)+2 <= n {
-		out += "\u0301"
+	for sb.Len()+2 <= n {
+		sb.WriteString("\u0301")
 	}
-	return out
+	return sb.String()
 }
 func vMakeText(w, nl int) string {
 	if w < 0 {
@@ -98,6 +105,7 @@ func vMakeText(w, nl int) string {
 	}
 	return strings.Repeat("x", w) + strings.Repeat("\n", nl)
 }
+
 // native measurements agree with the engine's Text abstraction: cursor control sequences (ESC [ ... letter) have
 // no display width; vTextCUU is the line count of the cursor-up sequences
 func vStripCSI(s string) (string, int) {
@@ -127,8 +135,8 @@ func vTextWidth(s string) int {
 	t, _ := vStripCSI(s)
 	return runewidth.StringWidth(t)
 }
-func vTextLen(s string) int   { return len(s) }
-func vTextNL(s string) int    { return strings.Count(s, "\n") }
+func vTextLen(s string) int { return len(s) }
+func vTextNL(s string) int  { return strings.Count(s, "\n") }
 
 // ---- ghost arrays (oracle bookkeeping)
 
